@@ -867,12 +867,14 @@ package tcell
 
 // inputLoop: every chunk handed to the main loop is a slice of a buffer allocated for that read alone (so a later
 // read cannot overwrite bytes that are still queued), holds exactly the bytes the read reported, and chunks are
-// sent in read order (sequential code); a read error ends the loop.
+// sent in read order (sequential code); a read error ends the loop - after the bytes that came with it, if any, have
+// been handed over (an io.Reader may return n > 0 together with an error).
 //@ func (*tScreen).inputLoop
 //@   arith math
 //@   requires !isNil(t.tty)
 //@   calls [fresh-chunk] call("*send:keychan", v) ==> freshInIteration(v) && v.off == 0 && len(v) >= 1 && len(v) <= 128
 //@   calls [read-size] call(Read, recv, p, ret) ==> len(p) == 128
+//@   calls [no-byte-lost] call(Read, recv, p, ret) ==> (ret.0 > 0 ==> stepcalls("select:blocking:*send:keychan*") == 1)
 //@   loop 1:
 //@     invariant [tty] !isNil(t.tty)
 //@   modifies t.Mutex, t.wg
